@@ -122,7 +122,8 @@ def stages : List (MT PSt) → List Event → Option (List Event)
   | [], es => some es
   | t :: ts, es => do
       let forest ← toForest es [] []
-      stages ts (specList t t.st [] forest)
+      -- `once`: replace the first match in document order (`onceList`); otherwise every match (`specList`)
+      stages ts (if t.once then (onceList t t.st [] forest).1 else specList t t.st [] forest)
 
 def specAnswer (items : List (Item PSt)) : Sexp :=
   match items with
@@ -133,7 +134,7 @@ def specAnswer (items : List (Item PSt)) : Sexp :=
     | some evs =>
       match evs.reverse with
       | .end_ root' :: revc =>
-        if root' != root || decls.any (fun t => t.once) then .atom "unmodelled" else
+        if root' != root then .atom "unmodelled" else
         match stages decls revc.reverse with
         | some out => .list [.atom "ok", .list ((Event.start root ra :: out ++ [Event.end_ root]).map evOut), .list []]
         | none => .atom "unmodelled"
@@ -273,7 +274,7 @@ def handle : List Sexp → Option Sexp
       | none => pure (.list [.atom "err", .atom "fuel"])
   | [.atom "tree", .list items] => do
       -- the specification: one tree rewrite per template, in declaration order (declarations first,
-      -- no once, lawful matchers); answers `unmodelled` otherwise
+      -- lawful matchers; `once` templates by `onceList`); answers `unmodelled` otherwise
       let items ← items.mapM item?
       pure (specAnswer items)
   | _ => none
